@@ -141,9 +141,9 @@ fn case(seed: u64, lane: Lane, trace: bool, stale_focus: bool) -> CaseOut {
 pub fn run(ctx: &Ctx) -> i32 {
     let t = Instant::now();
     let mut rep = Report::default();
-    let g = Group { name: "multi-null", cases: ctx.tier.pick(300, 20_000), budget_s: ctx.tier.pick(50.0, 1200.0), exhaustive: false };
+    let g = Group { name: "multi-null", cases: ctx.tier.pick(300, 20_000), budget_s: ctx.tier.pick(50.0, 600.0), exhaustive: false };
     run_group(ctx, &mut rep, &g, |_, seed, trace| case(seed, Lane::Null, trace, false));
-    let g = Group { name: "stale-cid", cases: ctx.tier.pick(500, 20_000), budget_s: ctx.tier.pick(25.0, 600.0), exhaustive: false };
+    let g = Group { name: "stale-cid", cases: ctx.tier.pick(500, 20_000), budget_s: ctx.tier.pick(25.0, 300.0), exhaustive: false };
     run_group(ctx, &mut rep, &g, |_, seed, trace| case(seed, Lane::Null, trace, true));
     finish(
         ctx,
